@@ -679,7 +679,7 @@ def run(ctx):
                 except Exception as ex:  # noqa: BLE001
                     rep.fail("array-valued characteristic: value raised", slim, f"{type(ex).__name__}: {ex}")
                     return
-                if list(got) != want:
+                if not isinstance(got, (list, tuple)) or list(got) != want:
                     rep.fail("array-valued characteristic: value != encoded items", slim, f"{got!r:.200} != {want!r:.200}")
                     return
                 for it in got:                            # the consumer edits what it read ...
@@ -687,7 +687,7 @@ def run(ctx):
                 if isinstance(got, list):
                     got.clear()
                 again = ch.value                          # ... the accessory's value has not changed
-                if list(again) != want:
+                if not isinstance(again, (list, tuple)) or list(again) != want:
                     rep.fail("array-valued characteristic: 2nd read after the 1st result was edited != encoded items", slim,
                              f"{again!r:.200} != {want!r:.200}")
                 return
